@@ -79,6 +79,14 @@ class Scen:
             L = np.linalg.norm(self.vects0, axis=1).max()
             t = rng.uniform(-1, 1, 3) * L * rng.choice([0.05, 0.6])
             v.shift = t
+            # along a non-periodic direction the cell moves with the atoms (they cannot be wrapped
+            # and the neighbour list requires atoms inside the cell); along periodic ones the
+            # cell stays and the atoms are wrapped back into it
+            for vects, origin in ((v.vects0, v.origin0), (v.vects1, v.origin1)):
+                rt = np.linalg.solve(vects.T, t)
+                for k in range(3):
+                    if not v.pbc[k]:
+                        origin += rt[k] * vects[k]
             v.pos0 = C.wrap(v.pos0 + t, v.vects0, v.origin0, v.pbc)
             v.pos1 = C.wrap(v.pos1 + t, v.vects1, v.origin1, v.pbc)
         if kind in ('permute', 'both'):
@@ -96,6 +104,19 @@ class Scen:
 
 
 VARIANTS = ['translate', 'permute', 'both']
+
+
+def pad_free(cry, pbc, frac=0.2):
+    """Vacuum along the non-periodic directions: the cell vector is lengthened and the
+    atoms keep their mutual positions (every tool requires atoms inside the cell, and a
+    slipped half must not leave it)."""
+    vects, pos = cry['vects'].copy(), cry['pos'].copy()
+    for k in range(3):
+        if not pbc[k]:
+            pos += frac * vects[k]
+            vects[k] = vects[k] * (1 + 2 * frac)
+    cry['vects'], cry['pos'] = vects, pos
+    return cry
 
 
 def nl_equal(nl, nidx):
@@ -187,6 +208,22 @@ def strain_outputs(ctx, am, cls, cry, sc, cutoff, theta, i, tag):
     out = {}
     s0, s1 = sc.systems(am)
     st = None
+    if cls in ('p-single', 'p-atom', 'p-axes'):
+        p, axes, cls2 = p_argument(cls, cry, sc, i)
+        if cls2 == 'p-single':
+            # one list of reference vectors for all atoms (documented form)
+            try:
+                am.defect.Strain(s1, cutoff=cutoff, p_vectors=p, theta_max=theta).G
+                rec.count('strain:p-single:solved-without-axes')
+            except ValueError as e:
+                if 'read-only' in str(e):
+                    rec.fail('Strain accepts one list of reference vectors for all atoms',
+                             'strain:p-single:read-only-buffer', exception=e)
+                    axes = np.eye(3)            # the same list goes through when axes are given: keep checking the values
+                else:
+                    rec.fail('Strain accepts one list of reference vectors for all atoms', 'strain:p-single:build', exception=e)
+            except Exception as e:
+                rec.fail('Strain accepts one list of reference vectors for all atoms', 'strain:p-single:build', exception=e)
     with ctx.guard('Strain can be built and solved for a homogeneously deformed crystal', f'strain:{cls}:build'):
         if cls == 'base':
             st = am.defect.Strain(s1, cutoff=cutoff, basesystem=s0, theta_max=theta)
@@ -195,7 +232,6 @@ def strain_outputs(ctx, am, cls, cry, sc, cutoff, theta, i, tag):
             nl0 = s0.neighborlist(cutoff=cutoff)
             st = am.defect.Strain(s1, neighbors=nl1, basesystem=s0, baseneighbors=nl0, theta_max=theta)
         else:
-            p, axes, cls2 = p_argument(cls, cry, sc, i)
             st = am.defect.Strain(s1, cutoff=cutoff, p_vectors=p, axes=axes, theta_max=theta)
             out['p'], out['axes'] = p, axes
         out['G'] = np.array(st.G)
@@ -208,6 +244,7 @@ def strain_outputs(ctx, am, cls, cry, sc, cutoff, theta, i, tag):
         out['nye'] = np.array(st.nye)
         out['neighbors'] = st.neighbors
         rec.count('strain:solved')
+        rec.count(f'reach:{ctx.flavour}:Strain')
     if 'nye' not in out:
         return None
     if 'p' in out or all(sc.pbc):
@@ -294,6 +331,7 @@ def run_strain_case(ctx, am, i):
                         need=2.45, maxatoms=500 if ctx.quick or shrink else 1200)
     F = C.gen_F(rng, cl['fclass'])
     pbc = T3 if cl['pbcclass'] == 'ppp' else tuple(k != 'abc'.index(cl['pbcclass'][-1]) for k in range(3))
+    cry = pad_free(cry, pbc)
     cutoff, a = cry['cutoff'], cry['a']
     theta = [27, 27, 20, 35][int(rng.integers(0, 4))]
     pos0 = cry['pos']
@@ -309,6 +347,9 @@ def run_strain_case(ctx, am, i):
     nidx, nvec, margin = O.neighbours(sc.pos0, sc.vects0, sc.pbc, cutoff)
     if margin < 0.035 * cutoff or not O.no_double_images(nidx):
         rec.count('strain:case-exempt(pair too near the cutoff)')
+        return
+    if min(len(x) for x in nidx) < 2:
+        rec.count('strain:case-exempt(free-surface atom with a single neighbour)')
         return
     ok = np.array([len(v) >= 3 and np.linalg.matrix_rank(v, tol=1e-6 * a) == 3 and np.linalg.cond(v) < 50 for v in nvec])
     results = {}
@@ -341,8 +382,15 @@ def run_nyefield_case(ctx, am, i):
     shell = (i // 2) % 3
     pbc = T3 if i % 2 else (False, False, False)
     how = ['Strain', 'Strain+legacy'][(i // 2) % 2]
-    cry = C.gen_crystal(rng, struct, orient, shell, 0, ['zero', 'near'][(i // 3) % 2], need=3.2 if all(pbc) else 2.2,
-                        maxatoms=450)
+    for sh in range(shell, 3):
+        cry = C.gen_crystal(np.random.default_rng([ctx.seed, 17, i, sh]), struct, orient, sh, 0, ['zero', 'near'][(i // 3) % 2],
+                            need=3.2 if all(pbc) else 2.2, maxatoms=450)
+        nidx, nvec, margin = O.neighbours(cry['pos'], cry['vects'], pbc, cry['cutoff'])
+        if min(len(x) for x in nidx) >= 2:
+            break
+        # an atom with a single neighbour (corner of a free block, first shell only) is outside the
+        # quantifier (perfect crystal environments): take the next shell instead
+        rec.count('nyefield:shell-raised(single-neighbour corner atoms)')
     a, cutoff = cry['a'], cry['cutoff']
     pos = cry['pos']
     n = len(pos)
@@ -361,7 +409,6 @@ def run_nyefield_case(ctx, am, i):
     rec.count(f'class:nyefield:pbc={"ppp" if all(pbc) else "fff"}')
     if i < 6:
         rec.sample(dict(struct=struct, orient=orient, natoms=n, cutoff=cutoff, pbc=pbc, gradG=A, expected_nye=O.nye_from_gradient(A)))
-    nidx, nvec, margin = O.neighbours(pos, cry['vects'], pbc, cutoff)
     ok = np.array([len(v) >= 3 and np.linalg.matrix_rank(v, tol=1e-6 * a) == 3 and np.linalg.cond(v) < 50 for v in nvec])
     interior = ok.copy()
     for k in range(n):
@@ -426,6 +473,7 @@ def slip_outputs(ctx, am, sc, cutoff, cl, sl, i, planepos, m_vec, do_dis):
         else:
             out['slip'] = np.array(am.defect.slip_vector(s0, s1, cutoff=cutoff))
         rec.count('slip:evaluated')
+        rec.count(f'reach:{ctx.flavour}:slip_vector')
     if do_dis:
         with ctx.guard('disregistry can be evaluated for a slip plane between two atomic layers', 'disregistry:call'):
             if cl.get('defaults'):
@@ -537,6 +585,7 @@ def run_slip_case(ctx, am, i):
         pbc = tuple(k != axis for k in range(3))
     else:
         pbc = tuple(k != (axis + 1 + i % 2) % 3 for k in range(3))
+    cry = pad_free(cry, pbc)
     smax = min(target * a, 0.45 * 2 * O.unique_image_radius(cry['vects'], pbc) - cutoff)
     sl = C.gen_slip(rng, cry, axis, cl['sclass'], pbc, smax)
     s = sl['s']
@@ -641,7 +690,9 @@ def run_displacement_case(ctx, am, i):
         u *= (rng.uniform(0.05, 0.9, n) * rcap / np.linalg.norm(u, axis=1))[:, None]
     elif field == 'homogeneous':
         F = C.gen_F(rng, C.FCLASSES[(i // 15) % 5])
-        u = pos0 @ F.T - pos0
+        t = rng.normal(size=3)
+        t *= rng.uniform(0.1, 0.5) * rcap / np.linalg.norm(t)       # a common shift, so that atoms leave the deformed cell
+        u = pos0 @ F.T - pos0 + t
         v1, o1 = v0 @ F.T, F @ o0
     elif field == 'slip':
         sl = C.gen_slip(rng, cry, i % 3, C.SCLASSES[(i // 3) % 4], pbc, 0.8 * rcap)
@@ -741,19 +792,21 @@ def run(ctx):
     import atomman.defect  # noqa: F401
     rec = ctx.rec
     install_monitors(rec, am)
+    O.selfcheck()                               # the oracle against hand-computed cases (a failure makes the run inconclusive)
+    rec.count('oracle:selfcheck-passed')
     asan = ctx.flavour == 'asan'
     div = 8 if asan else 1
 
-    for i in ctx.cases('strain', ctx.pick(90, 1080) // div):
+    for i in ctx.cases('strain', ctx.pick(90, 540) // div):
         run_strain_case(ctx, am, i)
-    for i in ctx.cases('nyefield', ctx.pick(48, 480) // div):
+    for i in ctx.cases('nyefield', ctx.pick(48, 240) // div):
         run_nyefield_case(ctx, am, i)
-    for i in ctx.cases('slip', ctx.pick(72, 1080) // div):
+    for i in ctx.cases('slip', ctx.pick(72, 432) // div):
         run_slip_case(ctx, am, i)
-    for i in ctx.cases('displacement', ctx.pick(120, 1800) // div):
+    for i in ctx.cases('displacement', ctx.pick(120, 720) // div):
         run_displacement_case(ctx, am, i)
     if not asan:
-        for i in ctx.cases('legacy-dd', ctx.pick(8, 45)):
+        for i in ctx.cases('legacy-dd', ctx.pick(8, 30)):
             run_legacydd_case(ctx, am, i)
 
     for k, v_ in monitor.calls.items():
@@ -763,6 +816,8 @@ def run(ctx):
     # ---- floors: monitors reached, every class generated (merged over shards; asan runs 1/8 of the cases)
     f = (lambda q: max(1, q // div)) if asan else (lambda q: q)
     rec.floor('strain:solved', f(120))
+    rec.floor(f'reach:{ctx.flavour}:Strain', 10)
+    rec.floor(f'reach:{ctx.flavour}:slip_vector', 10)
     rec.floor('strain:atoms-checked', f(10000))
     rec.floor('nye:atoms-checked(homogeneous)', f(8000))
     rec.floor('legacy:solved', f(60))
